@@ -223,11 +223,11 @@ const CONTEXTS: &[&str] = &["empty", "nf-function", "nf-variable", "min-function
 fn engine_ctx(kind: &str) -> Context {
     let mut c = Context::new();
     match kind {
-        "nf-function" => c.set_func("nf", Arc::new(|a| Ok(Value::String(format!("ctx-nf({})", a.len()))))),
-        "nf-variable" => c.set_variable("nf", Value::Number(Decimal::from(5))),
-        "min-function" => c.set_func("min", Arc::new(|a| Ok(Value::String(format!("ctx-min({})", a.len()))))),
+        "nf-function" => { let _ = c.set_func("nf", Arc::new(|a| Ok(Value::String(format!("ctx-nf({})", a.len()))))); }
+        "nf-variable" => { let _ = c.set_variable("nf", Value::Number(Decimal::from(5))); }
+        "min-function" => { let _ = c.set_func("min", Arc::new(|a| Ok(Value::String(format!("ctx-min({})", a.len()))))); }
         // a context function that fails: the call fails, the global function of that name is not a fall-back
-        "nf-failing-function" => c.set_func("nf", Arc::new(|_| Value::None.bool().map(Value::from))),
+        "nf-failing-function" => { let _ = c.set_func("nf", Arc::new(|_| Value::None.bool().map(Value::from))); }
         _ => {}
     }
     c
